@@ -60,3 +60,27 @@ Theorem C10_partial_segment_id_not_reused : forall p hv ht hm limit cthr known l
   ids_ok (s_segs s) (s_counter s) /\ (forall id, In id (map fst listing) -> id <= s_counter s).
 Proof. exact reopen_ids_ok. Qed.
 Print Assumptions C10_partial_segment_id_not_reused.
+
+(** the write side of "ignored as a whole rather than loaded partially": a directory in which every
+    segment's files are SAFE loads each segment all-or-nothing (a failed load has not touched the
+    shared sub-index states), and a writer that finishes the hybrid_ file last leaves only safe
+    directories at every crash point.  Every crash image is checked for [safe_files] on reopen. *)
+Theorem C10_safe_files_load_all_or_nothing : forall t g,
+  safe_files (match t_vec t with Some _ => true | None => false end)
+             (match t_txt t with Some _ => true | None => false end)
+             (match t_meta t with Some _ => true | None => false end) (sg_files g) = true ->
+  snd (load_segment t g) = false -> fst (load_segment t g) = t.
+Proof. exact safe_files_all_or_nothing. Qed.
+Print Assumptions C10_safe_files_load_all_or_nothing.
+
+Theorem C10_hybrid_file_last_is_safe : forall hv ht hm files,
+  hybrid_last hv ht hm files = true -> safe_files hv ht hm files = true.
+Proof. exact hybrid_last_safe. Qed.
+Print Assumptions C10_hybrid_file_last_is_safe.
+
+Example C10_safe_files_examples :
+  safe_files true true false (FEmpty, FComplete, FBroken, FMissing) = true /\
+  safe_files true true false (FTrailer, FComplete, FComplete, FMissing) = true /\
+  safe_files true true false (FComplete, FComplete, FBroken, FMissing) = false /\
+  hybrid_last true true false (FComplete, FComplete, FBroken, FMissing) = false.
+Proof. repeat split. Qed.
